@@ -2,7 +2,7 @@
 import re
 
 from .. import rettags as RT
-from ..analysis import Branches, Origins, edge_dominates, fmt_terms, reach_avoiding, region_always_errs
+from ..analysis import Branches, Origins, edge_dominates, fmt_terms, reach_avoiding, region_always_errs, strip_through
 from ..serde_tables import SER, VAR, casts_in, f64_mapping_ok, int_entry_ok
 from ..tmatch import ANY, Agg, Call, Each, Or_, m, ms
 
@@ -449,6 +449,28 @@ def check_deserializer(ctx, lib):
                         if st["k"] == "assign" and st["place"]["l"] == 0 and not st["place"]["p"] and st["rv"]["k"] == "agg" and st["rv"].get("variant") == "Ok":
                             rets_ok = False
                 ok = ok and rets_ok
+                # what the visitor gets: on the Object arm always Some(the entry's value) — a null content is still a content —
+                # and the entry's key as the variant; on the String arm the string and no content
+                succ_all = {tb for tb in set(b.succs()[sb])}
+                for arm_name in ("Object", "String"):
+                    tgt = ve["edges"][arm_name]
+                    feas = reach_avoiding(b, 0, avoid_edges=[(sb, x) for x in succ_all if x != tgt])
+                    po = Origins(b, lib, only_blocks=feas)
+                    for e_ in po.of_operand(ve_calls[0][1]["args"][1]):
+                        if not (e_[0] == "agg" and len(e_[2]) == 2):
+                            ok = False
+                            continue
+                        names_ = e_[3] if len(e_) > 3 and e_[3] else ("variant", "val")
+                        vals_ = dict(zip(names_, e_[2]))
+                        content = {strip_through(x) for x in vals_.get("val", ())}
+                        if arm_name == "Object":
+                            entry = ("elem", ("field", P1, "Object.0"))
+                            ok = ok and bool(content) and all(x[0] == "agg" and x[1] == "std::option::Option::Some" and
+                                                              set(x[2][0]) == {("field", entry, "1")} for x in content) and \
+                                set(vals_.get("variant", ())) == {("field", entry, "0")}
+                        else:
+                            ok = ok and bool(content) and all(x[0] == "agg" and x[1] == "std::option::Option::None" for x in content) and \
+                                set(vals_.get("variant", ())) == {("field", P1, "String.0")}
         n += 1
         ctx.check(ok, rule, "deserialize_enum", "a String is a unit-like variant, a single-entry Object is (variant, content); an empty or multi-entry map or any other kind is an error", b.span)
     # VariantAccess
